@@ -154,7 +154,7 @@ def unit_rate(model, sizes, vec, limit, use_t):
             if vals is not None:
                 rp[vec] = [enc_model(md, f"r{i}") for i in range(n)]
             if use_t:
-                rp["t"] = {"v": [1, 2], "k": "float"}
+                rp["t"] = enc_model(md, "t", KFLOAT) if "t" in md else {"v": [1, 2], "k": "float"}
         path = f"path{npaths[0]}"
         recs.append(field_rec(f"C01/{model}/rate/mu@{shape},{path}", okm, "field", "; ".join(notes)[:300], dt / 2, fn, shape, rp))
         recs.append(field_rec(f"C01/{model}/rate/sigma@{shape},{path}", oks, "field", "; ".join(notes)[:300], dt / 2, fn, shape, rp))
